@@ -402,6 +402,19 @@ def printing_shard(args):
     ev = Ev(agg)
     try:
         xs = list(GRID) if seed % 16 == 0 else []
+        # every power of two and of ten with both neighbours (magnitudes at which integer / fixed / exponent renderings and
+        # 32/53/63/64-bit integer fast paths change), spread over the shards
+        edge = []
+        for k in range(-1074, 1024):
+            edge.append(math.ldexp(1.0, k))
+        for k in range(-323, 309):
+            edge.append(float("1e%d" % k))
+        edge = edge[seed % 16::16]
+        for v in edge:
+            for w in (v, math.nextafter(v, math.inf), math.nextafter(v, 0.0), -v):
+                if math.isfinite(w):
+                    xs.append(w)
+        n = max(n, len(xs) + n // 2)
         while len(xs) < n:
             xs.append(common.rand_double(rng))
         for i, x in enumerate(xs):
@@ -583,7 +596,7 @@ def run(tier, seed):
             "literals/parseJson/parseYaml, 0x/0o YAML scalars); structured YAML with anchors on values/keys/items/collections "
             "and aliases in every position over scalars that read as out-of-range numbers; "
             "decimal literals (halfway cases, up to 400 digits, underscores, threshold exponents) vs Python float() "
-            "bitwise; printed numbers on 10 manifest paths read back bitwise and have the shortest digit count. "
+            "bitwise; printed numbers (random, the grid, and every power of two and of ten with both neighbours and negated) on 10 manifest paths read back bitwise and have the shortest digit count. "
             "distinct_nontrivial = distinct operator/builtin applications with a numeric result, literals with more "
             "than 17 digits, (path, double) pairs.")
     return common.finish(PROP, tier, seed, total, rule, t0, extra={"grid_points": len(GRID)},
